@@ -9,7 +9,7 @@ INFO = {
     'functions': ['rtamt.semantics.stl.dense_time.offline.ast_visitor (all operators of the fragment)', 'rtamt.semantics.stl.discrete_time.offline.ast_visitor',
                   'both time_unit_transformer functions'],
     'bounds': {'quick': 'fragment: arithmetic, comparisons, Boolean operators, once/historically (bounded or not), bounded eventually/always; F1 and depth-2 nestings (sample), '
-                        'bounds multiples of the period P in {1, 1/2}; N=4..5 samples on the grid k*P (concrete times), symbolic values; also the dense online monitor on past formulas',
+                        'bounds multiples of the period P in {1, 1/2}; N=4..5 samples on the grid k*P (concrete times), symbolic values; also the dense online monitor on past formulas; one variable used twice, once under abs/neg/not/once/historically',
                'thorough': 'F2 exhaustive over the fragment, N up to 7, P=1/4'},
     'outside': 'since/until/prev/next/rise/fall and unbounded future (excluded by the property)',
     'assumptions': ['the dense input is the step signal [[k*P, v_k]]; dense robustness is read at the instants k*P with k+horizon < N'],
